@@ -188,6 +188,13 @@ def run(run, tier, seed):
         run.add_part('unmerged:' + init, res)
         res = explore.bfs(make_expand(init), d_me, seed=seed, merge=True, bound={'initial_filter': init, 'depth': d_me, 'merged': True})
         run.add_part('merged:' + init, res)
+    # one long session: recording does not forget (a bounded history would)
+    from . import c11
+    n_long = 70000 if tier == 'quick' else 300000
+    res = explore.prod(lambda: iter([{'messages': n_long}]), c11.eval_long_history, workers=1, bound={'messages': n_long})
+    for v in res.violations:
+        v.kind = 'recorded.long_history'
+    run.add_part('long_history', res)
     run.rule = ('BFS over histories of 9 message events (2 connections; matching / non-matching / creating / destroying) and '
                 '8 commands (incl. a failing selection and a malformed filter) from 4 initial filters; unmerged = every history to the depth (every change point); merged on '
                 '(printed filter, selection, object state); non-trivial = at least one command and one message')
@@ -199,4 +206,10 @@ def run(run, tier, seed):
 def replay(case):
     sut.bind()
     sut.ensure_protocols()
+    if 'messages' in case:
+        from . import c11
+        vs = c11.eval_long_history(case).viols
+        for v in vs:
+            v.kind = 'recorded.long_history'
+        return vs
     return run_hist(case['init'], case['history'])[0]
